@@ -291,6 +291,26 @@ theorem copy_refuses_cloexec_source (o : Oracle W) (w : W) (t : FdTable) (n : Fd
     · rw [if_neg (by simp [hacc]), if_pos hc]; exact ⟨_, rfl, rfl⟩
     · rw [if_pos (by simpa using hacc)]; exact ⟨_, rfl, rfl⟩
 
+/-- the order of `copy_fd`'s checks: the access mode comes first — a source that lacks the access the
+    operator needs is reported as unreadable / unwritable whether or not it is CLOEXEC (`ReservedFd` is
+    only said of a descriptor that could otherwise have been copied); the table is untouched -/
+theorem copy_checks_access_before_cloexec (o : Oracle W) (w : W) (t : FdTable) (n : Fd) (input : Bool) (e : FdEntry)
+    (hg : t.get n = some e)
+    (hacc : (if input then (o.access w e.ofd).1 else (o.access w e.ofd).2) = false) :
+    (copyFd o w t (.fd n) input).r = .error (if input then .unreadableFd n else .unwritableFd n) ∧
+    (copyFd o w t (.fd n) input).t = t := by
+  unfold copyFd
+  simp only [hg, hacc]
+  exact ⟨rfl, rfl⟩
+
+-- non-vacuity: descriptor 11 read-only and CLOEXEC: `>&11` says "unwritable", `<&11` says "reserved"
+example :
+    let w : World := { stdWorld false with ofds := (stdWorld false).ofds ++ [⟨9, true, false, false, 0⟩] }
+    let t := stdTable.put 11 (some ⟨3, true⟩)
+    (match (copyFd worldOracle w t (.fd 11) false).r with | .error (.unwritableFd 11) => true | _ => false) = true ∧
+    (match (copyFd worldOracle w t (.fd 11) true).r with | .error (.reservedFd 11) => true | _ => false) = true := by
+  decide
+
 /-- consequently nothing the shell holds for itself is disturbed by any redirection list -/
 theorem cloexec_untouched (o : Oracle W) (w : W) (t : FdTable) (rs : List Redir) (fd : Fd)
     (h : t.isCloexec fd = true) : (performRedirs o w t rs).t.get fd = t.get fd :=
